@@ -227,6 +227,11 @@ func TestWorker(t *testing.T) {
 				// shrinking must never change the class; fall back to the original tape
 				min = orig
 				final = p.Run(t, core.ReplayTape(min), rc(idx, true))
+				if final.Class != class {
+					// the violation has changed this process's state (it cannot be re-executed
+					// here): report the original observation; the driver replays it in a fresh process
+					final.Class, final.Detail = class, res.Detail
+				}
 			}
 			var fl []string
 			for k, v := range cfg.Findings {
